@@ -19,6 +19,9 @@ class CProg:
         lin = sp.csr_matrix(formula.linear)
         self.m, self.n = lin.shape
         self.name = name
+        if not (np.all(np.isfinite(lin.data)) and np.all(np.isfinite(np.asarray(formula.const, dtype=float)))
+                and np.all(np.isfinite(np.asarray(formula.obj, dtype=float)))):
+            raise MalformedProgram('the standard form has non-finite (inf / nan) coefficients')
         self.rows = []
         const = np.asarray(formula.const).reshape(-1)
         sense = np.asarray(formula.sense).reshape(-1)
